@@ -34,5 +34,41 @@ Section C06_hmc.
   Proof. exact (leapfrog_reversible grad eps grad_length). Qed.
 End C06_hmc.
 
+(* ---- leapfrog = kick . drift . kick: each factor is a shear with an explicit inverse (any dimension), and in
+   dimension one the composed map has Jacobian determinant 1 (volume preservation; the multivariate change of
+   variables is not available in the installed libraries and is NOT proved for dimension > 1) ---- *)
+From MiniMcmc Require Import Proofs.Shear.
+From Coquelicot Require Import Coquelicot.
+
+Section C06_shear.
+  Variable grad : list R -> list R.
+  Hypothesis grad_length : forall x, length (grad x) = length x.
+
+  Theorem C06_leap_shear : forall (eps : R) z,
+    leap1 numR grad eps z = kickv grad (half_eps numR eps) (driftv eps (kickv grad (half_eps numR eps) z)).
+  Proof. exact (leap1_decomp grad). Qed.
+
+  (* the step with -eps is the inverse map: leapfrog is a bijection of phase space *)
+  Theorem C06_leap_bijective : forall (eps : R) x p, length p = length x ->
+    leap1 numR grad (- eps) (leap1 numR grad eps (x, p)) = (x, p).
+  Proof. exact (leap1_inverse grad grad_length). Qed.
+End C06_shear.
+
+Theorem C06_leap_volume_1d : forall (g : R -> R) (eps x p : R), det4 (leap_1d_jac g eps x p) = 1.
+Proof. exact leap_1d_jacobian_det. Qed.
+
+Theorem C06_leap_jacobian_1d : forall (g : R -> R) (eps x p : R),
+  ex_derive g x -> ex_derive g (x + eps * (p + eps * (1 / 2) * g x)) ->
+  let '(ja, jb, jc, jd) := leap_1d_jac g eps x p in
+  is_derive (fun x0 => fst (leap_1d g eps (x0, p))) x ja /\
+  is_derive (fun p2 => fst (leap_1d g eps (x, p2))) p jb /\
+  is_derive (fun x0 => snd (leap_1d g eps (x0, p))) x jc /\
+  is_derive (fun p2 => snd (leap_1d g eps (x, p2))) p jd.
+Proof. exact leap_1d_partials. Qed.
+
 Print Assumptions C06_mh_stationary.
 Print Assumptions C06_hmc_reversible.
+Print Assumptions C06_leap_shear.
+Print Assumptions C06_leap_bijective.
+Print Assumptions C06_leap_volume_1d.
+Print Assumptions C06_leap_jacobian_1d.
